@@ -8,7 +8,7 @@
      m <Type>                                    names of the modelled zero-argument methods (the
                                                  harness answers with the reflected method set)
      types                                       names of the modelled view types *)
-From PV Require Export Base.Text Model.ViewsShow Spec.Views Spec.Views2.
+From PV Require Export Base.Text Model.ViewsShow Spec.Views Spec.Views2 Spec.ViewsNDP.
 Open Scope string_scope.
 
 Record vtype := mkVT {
